@@ -101,7 +101,7 @@ func (v xFilesFactorValue) Set(s string) error {
 	if err != nil {
 		return err
 	}
-	if f < 0 || 1 < f {
+	if !(0 <= f && f <= 1) {
 		return errors.New("xFilesFactor must be between 0.0 and 1.0")
 	}
 	*v.f = float32(f)
